@@ -343,15 +343,38 @@ def gen_case(rng, thorough=False):
     for k in keys:
         if rng.random() < pfull:
             cfg0[k] = cfg_value_choices(k, rng, counter)
-    if fam in ("emod", "mixed") and rng.random() < 0.6:
-        # start from one complete scenario: drop the keys of the others
-        scen = rng.choice("ABC")
-        drop = {"A": ["emodulus temperature", "emodulus viscosity"],
-                "B": ["emodulus medium", "emodulus temperature"],
-                "C": ["emodulus viscosity"]}[scen]
-        for name in drop:
-            cfg0.pop(kid("calculation", name), None)
-        cfg0.pop(kid("setup", "chip region"), None)
+    hot = []       # keys changed preferentially during the history
+    if fam in ("emod", "mixed"):
+        ek = {n: kid("calculation", "emodulus " + n) for n in (
+            "lut", "medium", "temperature", "viscosity", "viscosity model")}
+        hot = [ek["viscosity"], ek["temperature"], ek["medium"]]
+        r = rng.random()
+        if r < 0.45:
+            # start from one complete scenario: drop the keys of the others
+            scen = rng.choice("ABC")
+            drop = {"A": ["temperature", "viscosity"],
+                    "B": ["medium", "temperature"],
+                    "C": ["viscosity"]}[scen]
+            for name in drop:
+                cfg0.pop(ek[name], None)
+            cfg0.pop(kid("setup", "chip region"), None)
+        elif r < 0.75:
+            # overlapping scenarios: everything the recipes ask for is set,
+            # then a random subset of the competing ingredients is removed;
+            # the medium is "other" more often (case-B computation under a
+            # case-A/C configuration)
+            for k in keys:
+                if k not in cfg0:
+                    cfg0[k] = cfg_value_choices(k, rng, counter)
+            cfg0.pop(kid("setup", "chip region"), None)
+            if rng.random() < 0.4:
+                cfg0[ek["medium"]] = rng.choice(OTHER_MEDIUM_IDS)
+            for name in ("temperature", "viscosity", "viscosity model",
+                         "medium"):
+                if rng.random() < 0.3:
+                    cfg0.pop(ek[name], None)
+            if "temp" in temps and "temp" not in ev and rng.random() < 0.6:
+                ev.append("temp")
     temps0 = {}
     for t in temps:
         if rng.random() < 0.3:
@@ -370,7 +393,8 @@ def gen_case(rng, thorough=False):
             continue
         mutated = r < 0.50
         if r < 0.27:
-            k = rng.choice(keys)
+            k = rng.choice(hot) if hot and rng.random() < 0.5 \
+                else rng.choice(keys)
             ops.append([0, k, cfg_value_choices(k, rng, counter)])
             present.add(k)
         elif r < 0.37:
@@ -665,6 +689,27 @@ def viscosity_involved(case, f):
     return any(o[0] in (0, 1) and o[1] == kv for o in case["ops"][:f["op"]])
 
 
+def stale_viscosity_on_repo(case, f):
+    """The finding as it exists with the documented priorities C > B > A:
+    - the configuration selects case C (lut, medium, temperature present;
+      its cache key lacks the viscosity) and 'emodulus viscosity' was set or
+      removed at some point, or
+    - it selects case B (lut, viscosity; its cache key lacks the medium)
+      and 'emodulus medium' was changed earlier in this history.
+    A configuration that selects case A (no viscosity, no temperature) is
+    never stale; with other priorities a stale value is a new violation."""
+    cfg = f["ctx"]["cfg"]
+    if "emodulus lut" not in cfg:
+        return False
+    if "emodulus medium" in cfg and "emodulus temperature" in cfg:
+        return viscosity_involved(case, f)
+    if "emodulus viscosity" in cfg:
+        km = K_ID[("calculation", "emodulus medium")]
+        return any(o[0] in (0, 1) and o[1] == km
+                   for o in case["ops"][:f["op"]])
+    return False
+
+
 def classify(case, f):
     feat = f["feature"]
     ctx = f["ctx"]
@@ -695,7 +740,7 @@ def classify(case, f):
         if what == "fresh-in-vs-read" and f.get("listed0") \
                 and f.get("code0") == 3:
             return "C06-emodulus-available-unreadable"
-        if what == "stale" and viscosity_involved(case, f):
+        if what == "stale" and stale_viscosity_on_repo(case, f):
             return "C06-emodulus-stale-viscosity"
         return None
     return None
